@@ -12,7 +12,9 @@
 (* Stop.tla on the run's own bound sequence - it stopped at the first      *)
 (* iteration whose total bound is strictly below r, else at N - and, for   *)
 (* one thread (bitwise deterministic), iff it is the prefix of length      *)
-(* TStar of the series: same bounds, same digest.                          *)
+(* TStar of the series: same bounds, same digest.  `unlimited` events are  *)
+(* runs with the budget u64::MAX (the documented "no limit") and a         *)
+(* threshold the series is known to cross: they must stop exactly there.   *)
 (***************************************************************************)
 EXTENDS Float, Json, IOUtils, TLC, FiniteSets
 
@@ -51,7 +53,25 @@ RunOK(r) ==
 
 Run == IsEvent("run") /\ RunOK(Rec[l]) /\ UNCHANGED series
 
-TraceNext == Series \/ Run
+\* budget u64::MAX ("no limit"): the threshold r is one the series crosses within its N iterations, so the run must
+\* stop at exactly that iteration (one thread); with several threads r lies above twice every bound of the series and
+\* the run must stop for the reason the rule names.  In every case at least one iteration is run
+UnlimitedOK(r) ==
+  LET iters == Len(r.iterbounds)
+  IN /\ iters >= 1
+     /\ \A t \in 1..(iters - 1) : ~Below(r.iterbounds[t], r.r)
+     /\ Below(r.iterbounds[iters], r.r)
+     /\ r.ret = r.iterbounds[iters]
+     /\ (r.k = 1 => LET hits == Hits(series.bounds, r.N, r.r)
+                        ts == TStar(series.bounds, r.N, r.r)
+                    IN /\ hits # {}
+                       /\ iters = ts
+                       /\ \A t \in 1..iters : r.iterbounds[t] = series.bounds[t]
+                       /\ r.digest = series.digests[ts])
+
+Unlimited == IsEvent("unlimited") /\ (UnlimitedOK(Rec[l]) = TRUE) /\ UNCHANGED series
+
+TraceNext == Series \/ Run \/ Unlimited
 TraceSpec == TraceInit /\ [][TraceNext]_tvars
 
 TraceAccepted ==
